@@ -125,6 +125,16 @@ def run(ctx, chk):
                detail={"clones": clones}, key="B18.4|run_bg-uncounted",
                msg="a counted clone held by the background task makes strong_count != 1 at the last user drop: the drop "
                    "neither cancels nor joins the task and the directory stays locked")
+    sb = O.body("rawdb::Database::sync_bg_tasks")
+    drain = [b for b, t in sb.calls() if ctx.L.prim(t["callee"]) and ctx.L.prim(t["callee"])[0] == "BG_TASKS"]
+    inn = O.seen_before(sb, drain)
+    ek = O.exit_kinds(sb)
+    early = [b for b, k in ek.items() if k == "ok" and not inn[b]]
+    chk.oblige("B18.4 sync_bg_tasks: no Ok return before the pending task handles were taken (bg_tasks lock) [%d ok exits]"
+               % sum(1 for k in ek.values() if k == "ok"), bool(drain) and not early,
+               key="B18.4|sync_bg_tasks-early-return",
+               msg="sync_bg_tasks (also run by the last handle's Drop) must not return without joining pending tasks, or "
+                   "the directory is re-openable while a task of the old instance still runs")
     spawn = O.sites(rb_, M(r"std::thread::(functions::)?spawn"))
     pushes = O.sites(rb_, M(r"alloc::vec::Vec::<T, A>::push"))
     chk.oblige("B18.4 run_bg records the JoinHandle of the spawned task (spawn then push into bg_tasks)",
